@@ -396,14 +396,14 @@ class Node:
         """Predecessor or None, if node is first sibling."""
         if self.is_first_sibling():
             return None
-        idx = self._parent._children.index(self)  # pyright: ignore[reportOptionalMemberAccess]
+        idx = self._get_sibling_index()
         return self._parent._children[idx - 1]  # pyright: ignore[reportOptionalSubscript]
 
     def next_sibling(self) -> Node | None:
         """Return successor or None, if node is last sibling."""
         if self.is_last_sibling():
             return None
-        idx = self._parent._children.index(self)  # type: ignore
+        idx = self._get_sibling_index()
         return self._parent._children[idx + 1]  # type: ignore
 
     def last_sibling(self) -> Node:
@@ -455,9 +455,21 @@ class Node:
         _ch(self, 0)
         return height
 
+    def _get_sibling_index(self) -> int:
+        """Return index in the parent's child list (compare by identity).
+
+        NOTE: `list.index()` and `list.remove()` check for equality ('=='),
+        and `Node.__eq__` compares the embedded data, so they may address a
+        sibling that holds equal data instead of `self`.
+        """
+        for i, n in enumerate(self._parent._children):  # type: ignore
+            if n is self:
+                return i
+        raise ValueError(f"{self} is not a child of {self._parent}")
+
     def get_index(self) -> int:
         """Return index in sibling list."""
-        return self._parent._children.index(self)  # type: ignore
+        return self._get_sibling_index()
 
     # --------------------------------------------------------------------------
 
@@ -753,7 +765,7 @@ class Node:
         if new_parent._tree is not self._tree:
             raise NotImplementedError("Can only move nodes inside same tree")
 
-        self._parent._children.remove(self)  # type: ignore
+        self._parent._children.pop(self._get_sibling_index())  # type: ignore
         if not self._parent._children:  # store None instead of `[]`
             self._parent._children = None
         self._parent = new_parent
@@ -797,7 +809,7 @@ class Node:
             self.remove_children()
 
         pc = self._parent._children
-        pc.remove(self)  # type: ignore
+        pc.pop(self._get_sibling_index())  # type: ignore
         if not pc:  # store None instead of `[]`
             pc = self._parent._children = None
 
